@@ -647,6 +647,11 @@ fn epilogue(case: &CoopCase, world: &mut World, model: &Model, write_first: bool
                     }
                 }
                 (Err(p), Ok(_)) => out.push(viol("unexpected-panic", format!("{what}: get({n},{a}): {}", p.text()))),
+                (Ok(g), Err(LatWant::EitherValue(v))) => {
+                    if g.v != v {
+                        out.push(viol("value-mismatch", format!("{what}: get({n},{a}): value {} != reference {v} (mixed cycle that does not panic)", g.v)));
+                    }
+                }
                 (Ok(g), Err(LatWant::CyclePanic)) => out.push(viol("missing-panic", format!("{what}: get({n},{a}) returned {} but a cycle of functions without recovery is reachable", g.v))),
                 (Err(p), Err(LatWant::CyclePanic)) => {
                     if !is_cycle_panic(&p) {
